@@ -50,7 +50,12 @@ func patterned(n int) []byte {
 }
 
 // c19RoundTrip writes items through the real writer and reads them back with the real reader.
-func c19RoundTrip(db *nitro.Nitro, items [][]byte, blockSize int) string {
+func c19RoundTrip(db *nitro.Nitro, items [][]byte, blockSize int) (problem string) {
+	defer func() {
+		if r := recover(); r != nil {
+			problem = fmt.Sprintf("panic: %v", r)
+		}
+	}()
 	nitro.DiskBlockSize = blockSize
 	fs := vos.NewMemFS()
 	vos.FS = fs
@@ -103,7 +108,12 @@ func clip(b []byte) []byte {
 }
 
 // c19V0 frames items in the version-0 format and reads them with a version-0 reader.
-func c19V0(db *nitro.Nitro, items [][]byte, blockSize int) string {
+func c19V0(db *nitro.Nitro, items [][]byte, blockSize int) (problem string) {
+	defer func() {
+		if r := recover(); r != nil {
+			problem = fmt.Sprintf("panic: %v", r)
+		}
+	}()
 	nitro.DiskBlockSize = blockSize
 	fs := vos.NewMemFS()
 	vos.FS = fs
@@ -287,6 +297,11 @@ func runC19KV(jc *JobCtx) {
 	check := func(ki, vi, kj, vj int) {
 		k1, v1, k2, v2 := strs[ki], vals[vi], strs[kj], vals[vj]
 		rep.Executions++
+		defer func() {
+			if r := recover(); r != nil {
+				rep.violate(Viol{Kind: "kv-panic", Msg: fmt.Sprintf("panic: %v for keys %x / %x", r, clip(k1), clip(k2)), Site: "item.go", Job: jc.Job.Name, Choices: []int{ki, vi, kj, vj}})
+			}
+		}()
 		a := nitro.KVToBytes(k1, v1)
 		b := nitro.KVToBytes(k2, v2)
 		gk, gv := nitro.KVFromBytes(a)
